@@ -191,6 +191,11 @@ func (o *Array) BinaryOp(op token.Token, rhs Object) (Object, error) {
 // Copy returns a copy of the type.
 func (o *Array) Copy() Object {
 	var c []Object
+	if n := len(o.Value); n > 0 {
+		// exact capacity: a copy must not carry spare capacity that a later
+		// append() could write into while the copy is shared (module tables)
+		c = make([]Object, 0, n)
+	}
 	for _, elem := range o.Value {
 		c = append(c, elem.Copy())
 	}
@@ -851,6 +856,11 @@ func (o *ImmutableArray) BinaryOp(op token.Token, rhs Object) (Object, error) {
 // Copy returns a copy of the type.
 func (o *ImmutableArray) Copy() Object {
 	var c []Object
+	if n := len(o.Value); n > 0 {
+		// exact capacity: a copy must not carry spare capacity that a later
+		// append() could write into while the copy is shared (module tables)
+		c = make([]Object, 0, n)
+	}
 	for _, elem := range o.Value {
 		c = append(c, elem.Copy())
 	}
